@@ -9,6 +9,7 @@ package table
 
 import (
 	"container/list"
+	"sync"
 	"time"
 
 	enc "github.com/named-data/ndnd/std/encoding"
@@ -17,6 +18,10 @@ import (
 // RibTable represents the Routing Information Base (RIB).
 type RibTable struct {
 	RibEntry
+
+	// mutex serialises all RIB operations: routes are registered and removed by
+	// the management thread while faces are cleaned up from their own goroutines
+	mutex sync.Mutex
 }
 
 // RibEntry represents an entry in the RIB table.
@@ -168,6 +173,9 @@ func (r *RibEntry) updateOwnNexthopsEnc() {
 
 // AddRoute adds or updates a RIB entry for the specified prefix.
 func (r *RibTable) AddEncRoute(name enc.Name, route *Route) {
+	r.mutex.Lock()
+	defer r.mutex.Unlock()
+
 	name = name.Clone()
 	node := r.fillTreeToPrefixEnc(name)
 	if node.Name == nil {
@@ -189,8 +197,12 @@ func (r *RibTable) AddEncRoute(name enc.Name, route *Route) {
 	readvertiseAnnounce(name, route)
 }
 
-// GetAllEntries returns all routes in the RIB.
+// GetAllEntries returns a snapshot of all entries in the RIB that have routes.
+// The returned entries are copies: they share nothing with the table.
 func (r *RibTable) GetAllEntries() []*RibEntry {
+	r.mutex.Lock()
+	defer r.mutex.Unlock()
+
 	entries := make([]*RibEntry, 0)
 	// Walk tree in-order
 	queue := list.New()
@@ -203,9 +215,14 @@ func (r *RibTable) GetAllEntries() []*RibEntry {
 			queue.PushFront(child)
 		}
 
-		// If has any routes, add to list
+		// If has any routes, add a copy to the list
 		if len(ribEntry.routes) > 0 {
-			entries = append(entries, ribEntry)
+			snapshot := &RibEntry{Name: ribEntry.Name, depth: ribEntry.depth}
+			for _, route := range ribEntry.routes {
+				routeCopy := *route
+				snapshot.routes = append(snapshot.routes, &routeCopy)
+			}
+			entries = append(entries, snapshot)
 		}
 	}
 	return entries
@@ -218,6 +235,9 @@ func (r *RibEntry) GetRoutes() []*Route {
 
 // RemoveRoute removes the specified route from the specified prefix.
 func (r *RibTable) RemoveRouteEnc(name enc.Name, faceID uint64, origin uint64) {
+	r.mutex.Lock()
+	defer r.mutex.Unlock()
+
 	entry := r.findExactMatchEntryEnc(name)
 	if entry != nil {
 		for i, route := range entry.routes {
@@ -236,10 +256,17 @@ func (r *RibTable) RemoveRouteEnc(name enc.Name, faceID uint64, origin uint64) {
 }
 
 // CleanUpFace removes the specified face from all entries. Used for clean-up after a face is destroyed.
-func (r *RibEntry) CleanUpFace(faceId uint64) {
+func (r *RibTable) CleanUpFace(faceId uint64) {
+	r.mutex.Lock()
+	defer r.mutex.Unlock()
+
+	r.RibEntry.cleanUpFace(faceId)
+}
+
+func (r *RibEntry) cleanUpFace(faceId uint64) {
 	// Recursively clean children
 	for child := range r.children {
-		child.CleanUpFace(faceId)
+		child.cleanUpFace(faceId)
 	}
 
 	// Remove every route of the face (there is one per origin)
